@@ -89,7 +89,8 @@ def rec_scene(seed):
     use_lbkg_est = bool(mask_l) and rng.random() < 0.6
     fit = (rng.choice([5, 7]), rng.choice([5, 7, 9]))
     fix_x = rng.random() < 0.2
-    bounds = rng.random() < 0.3
+    bounds = rng.random() < 0.35
+    bval = rng.choice([1.5, 0.25, 0.2]) if bounds else None       # tight bounds: some fits end on the bound (flag 32)
     init = Table()
     jit = [(rng.uniform(-0.35, 0.35), rng.uniform(-0.35, 0.35)) for _ in range(n)]
     # initial positions on the quarter lattice too (window rule is evaluated by TLC on them)
@@ -115,7 +116,7 @@ def rec_scene(seed):
     from photutils.background import MeanBackground
     lbe = LocalBackground(6, 10, bkg_estimator=MeanBackground(sigma_clip=None)) if use_lbkg_est else None
     mk = lambda: PSFPhotometry(mod, fit, grouper=SourceGrouper(t / 4.0) if grouping in ('grouper', 'both') else None, aperture_radius=4,  # noqa
-                               xy_bounds=(1.5, 1.5) if bounds else None, localbkg_estimator=lbe)
+                               xy_bounds=(bval, bval) if bounds else None, localbkg_estimator=lbe)
     rec = {'id': seed, 'model': mkind, 'pos': [list(p) for p in ipos], 'h': h, 'w': w, 't': t, 'grouping': grouping, 'supplied': supplied,
            'mask': [list(z) for z in {tuple(z) for z in mask_l + nan_l}], 'nonfinite': bool(nan_l), 'lbkg_estimator': use_lbkg_est, 'maskblind_ok': True,
            'fit': list(fit), 'local_bkg': use_lbkg, 'raised': False, 'check_recovery': False, 'scaled_ok': True, 'iter_equal': True, 'n': n}
@@ -138,6 +139,15 @@ def rec_scene(seed):
         rec['x_fit'] = [int(round(v * SP)) for v in g('x_fit')]; rec['y_fit'] = [int(round(v * SP)) for v in g('y_fit')]
         rec['x_true'] = [int(round(p[0] / 4.0 * SP)) for p in pos]; rec['y_true'] = [int(round(p[1] / 4.0 * SP)) for p in pos]
         rec['flux_fit'] = [int(round(v / f * 16384)) for v, f in zip(g('flux_fit'), flux)]; rec['flux_true'] = [16384] * n
+        # distance of each fitted position from the nearest bound of its box (units of 1e-9 px, capped); -1 without bounds
+        gaps = []
+        for xf, yf, (a, b) in zip(g('x_fit'), g('y_fit'), ipos):
+            if not bounds:
+                gaps.append(-1); continue
+            gx = min(abs(xf - (a / 4.0 - bval)), abs(xf - (a / 4.0 + bval))) if not fix_x else 1.0
+            gy = min(abs(yf - (b / 4.0 - bval)), abs(yf - (b / 4.0 + bval)))
+            gaps.append(int(min(gx, gy, 1.0) * 1e9))
+        rec['bound_gap'] = gaps
         rec['fixed_changed'] = [bool(fix_x and abs(xf - a / 4.0) > 0) for xf, (a, _) in zip(g('x_fit'), ipos)]
         rec['id'] = seed
         # recovery is demanded when every source is well constrained: complete unmasked windows, away from the edge, start within a pixel
@@ -145,6 +155,8 @@ def rec_scene(seed):
         grouped_ok = grouping != 'none' or all((a - c) ** 2 + (b - d) ** 2 > 36 ** 2 for k, (a, b) in enumerate(pos) for (c, d) in pos[k + 1:])
         merged_ok = grouping not in ('supplied', 'both')
         rec['check_recovery'] = bool(full and grouped_ok and merged_ok and not fix_x and not mask_l and not nan_l and mkind in ('circ', 'gauss', 'image'))
+        if bounds:       # the truth must lie inside every xy_bounds box
+            rec['check_recovery'] = rec['check_recovery'] and all(abs(a - c) / 4.0 < bval - 0.02 and abs(b - d) / 4.0 < bval - 0.02 for (a, b), (c, d) in zip(ipos, pos))
         if grouping == 'grouper':      # every close pair must actually be in one group for joint fitting to recover it
             rec['check_recovery'] = rec['check_recovery'] and all((a - c) ** 2 + (b - d) ** 2 <= t * t or (a - c) ** 2 + (b - d) ** 2 > 36 ** 2
                                                                   for k, (a, b) in enumerate(ipos) for (c, d) in ipos[k + 1:])
@@ -163,7 +175,7 @@ def rec_scene(seed):
         # IterativePSFPhotometry with one iteration equals PSFPhotometry on the shared columns
         if seed % 3 == 0:
             it = IterativePSFPhotometry(mod, fit, DAOStarFinder(1e9, 3.0), grouper=SourceGrouper(t / 4.0) if grouping in ('grouper', 'both') else None,
-                                        aperture_radius=4, maxiters=1, xy_bounds=(1.5, 1.5) if bounds else None, localbkg_estimator=lbe)
+                                        aperture_radius=4, maxiters=1, xy_bounds=(bval, bval) if bounds else None, localbkg_estimator=lbe)
             r2 = it(data, mask=m, init_params=init.copy())
             same = all(np.allclose(np.asarray(r2[cn], dtype=float), np.asarray(res[cn], dtype=float), rtol=1e-9, atol=1e-9, equal_nan=True)
                        for cn in ('id', 'group_id', 'x_fit', 'y_fit', 'flux_fit', 'npixfit', 'flags') if cn in r2.colnames)
@@ -171,7 +183,7 @@ def rec_scene(seed):
         rec['id_list'] = rec.pop('ids')
     except Exception as e:  # noqa
         rec['raised'] = True; rec['exc'] = repr(e)
-        for k in ('group_id', 'group_size', 'npixfit', 'flags', 'x_fit', 'y_fit', 'x_true', 'y_true', 'flux_fit', 'flux_true', 'fixed_changed'):
+        for k in ('bound_gap', 'group_id', 'group_size', 'npixfit', 'flags', 'x_fit', 'y_fit', 'x_true', 'y_true', 'flux_fit', 'flux_true', 'fixed_changed'):
             rec.setdefault(k, [0] * n)
         rec.update(tol_pos=0, tol_flux=0, resid_k=0, tol_resid=0, id_list=list(range(1, n + 1)))
     rec.pop('id_', None)
